@@ -77,6 +77,16 @@ CHECKS['C13'] = (
     'fresh parses only; LF line structure',
     '3/C13')
 
+CHECKS['C06'] = (
+    'bounded-exhaustive strings over token-kind alphabets + systematic mutation of generated documents + deep chains, outcome classifier with watchdog',
+    'every string up to a length bound over three alphabets (one representative per character category and per token '
+    'kind), random strings, all prefixes/deletions/transpositions/insertions of generated well-formed documents and '
+    'chains of up to 40 nested constructs are parsed in both tolerance modes under a watchdog; any outcome other than '
+    'a tree or one of the documented diagnostics is a leak. ~0.4M strings quick, ~15M thorough. Exhaustive within the '
+    'length bounds, exploration beyond.',
+    'the watchdog (30 s, re-run 120 s) decides "hang"; documented diagnostics are recognised by type and message fragment',
+    '3/C06')
+
 PENDING = {}
 
 
